@@ -74,7 +74,9 @@ def run(ctx):
                 continue
             # the worker's named_schemas argument is the same dictionary (or the dict containing it under 'writer'/'reader')
             root = table.split("[")[0]
-            ok = any(x == table or x == root for x in args)
+            tnode = b["named_schemas"]
+            shared = isinstance(tnode, (ast.Name, ast.Attribute, ast.Subscript))  # a display / call creates a dictionary nobody else can see
+            ok = shared and any(x == table or x == root for x in args)
             ctx.check("C12.R1", f"{f.qualname}: {worker} receives the name table filled by the parse ({table})", ok, f.where(wc), f"{f.qualname}: parse into {table} but {worker}({', '.join(args)[:80]})", "the worker resolves references in a different dictionary than the one the parse filled (e.g. the schema's private __named_schemas copy): references defined in separately parsed pieces are lost")
     # class-based entry points: GenericWriter / file_reader keep the parse result and the table on the instance
     gw = p.func("_write_py:GenericWriter.__init__")
